@@ -60,7 +60,7 @@ mut("m10", ["C04"], TREE,
     "",
     "remove_axes: in_dim not updated")
 mut("m12", ["C05", "C06"], ELIM,
-    "                .filter(|point| hyperplane.contains(point))",
+    "                .filter(|point| hyperplane.contains(point) && unit_hyperplane.contains(point))",
     "                .filter(|_point| true)",
     "phase_inh: parent witnesses inherited without testing the new half-space")
 mut("m13", ["C11"], ELIM,
@@ -112,8 +112,8 @@ mut("m30", ["C12", "C04"], GRAPH,
     "",
     "merge_child_with_parent: child's parent link not updated")
 mut("m32", ["C03", "C11"], ELIM,
-    "            NodeState::Infeasible => return false,\n            NodeState::FeasibleWitness(wit) => {\n                if wit.iter().any(|point| poly.contains(point)) {\n                    return true;\n                }\n            }",
-    "            NodeState::Infeasible => return false,\n            NodeState::FeasibleWitness(wit) => {\n                if wit.iter().any(|point| poly.contains(point)) {\n                    return true;\n                } else if wit.len() > 1 {\n                    return false;\n                }\n            }",
+    "                    .any(|point| poly.contains(point) && unit_poly.contains(point))\n                {\n                    return true;\n                }\n",
+    "                    .any(|point| poly.contains(point) && unit_poly.contains(point))\n                {\n                    return true;\n                } else if wit.len() > 1 {\n                    return false;\n                }\n",
     "is_edge_feasible: an edge is dropped when none of several parent witnesses lies in it")
 mut("m33", ["C05"], ELIM,
     "                    return NodeState::FeasibleWitness(vec);\n                }\n            }\n            NodeState::Feasible => {",
